@@ -863,7 +863,7 @@ std::string build_conc_case(const std::string &kind_in) {
     }
     else if ((c -= wget) < 0) lines.push_back(fmt("thread %d get ", t) + anykey());
     else if ((c -= wsnap) < 0) {
-      std::string s = fmt("thread %d snapget", t);
+      std::string s = fmt("thread %d %s", t, (!c10 && chance(30)) ? "snaphold" : "snapget");
       // whole key groups of one or two writers, so batch atomicity is observable
       int w = uni(0, T - 1);
       for (int k = 0; k < nkeys[w]; k++) s += fmt(" tT%dk%d", w, k);
